@@ -10,6 +10,7 @@ SPEC = {
             "C16_delivered", "C16_example_ranked", "C16_example_line_delivers", "C16_example_loop_falls_silent",
             "C16_validate_sound", "C16_example_validate",
             "C16_remark_ttl0_panics", "C16_remark_ttl1_dropped", "C16_remark_mtu_panics", "C16_remark_slot_panics",
+            "C16_accepts_own_address",
         ],
         "allow_axioms": [],
     },
